@@ -625,7 +625,7 @@ class AProc(ScriptedMixin, Process):
         kind = op[0]
         seen = {'agents': sorted(states['agents'].keys()), 'pool': sorted(states['pool'].keys())}
         # keep the population bounded: a crowded store is thinned instead
-        if kind in ('add', 'gen', 'gen_empty', 'div', 'add_del') and \
+        if kind in ('add', 'gen', 'gen_empty', 'div', 'add_del', 'move_gen') and \
                 len(seen['agents']) + len(seen['pool']) >= s.get('maxcells', 7):
             # (only the first actor deletes: two actors never issue
             # conflicting operations on one cell in the same batch)
@@ -690,6 +690,18 @@ class AProc(ScriptedMixin, Process):
                 if kind == 'move_up':
                     mv['update'] = {'vars': {'n': op[4]}}
                 up[src] = {'_move': [mv]}
+        elif kind == 'move_gen':
+            # the store moves the cell away and then builds a new one under the
+            # key that has just become free: two operations on one key, one update
+            src, dst = op[2], op[3]
+            c = pick(src, op[1])
+            if c is not None:
+                procs, steps, flow, topo = self._cell(op[4])
+                up[src] = {'_move': [{'source': (c,), 'target': (dst,)}],
+                           '_generate': [{
+                               'key': c, 'processes': procs, 'steps': steps, 'flow': flow,
+                               'topology': topo,
+                               'initial_state': {'vars': decode_value(copy.deepcopy(op[5]))}}]}
         elif kind == 'add_del':
             c = pick('agents', op[2])
             u = {'_add': [{'key': self._fresh(k),
